@@ -330,6 +330,8 @@ class NodeBase(object):
         """
         self._frozen = False
         self._stale = True
+        # parents may hold values computed from the frozen value
+        self.notify_parents()
 
     def mark_for_update(self):
         """
@@ -662,6 +664,8 @@ class Function(ValueNode):
     def func(self, function_handle):
         self._func = function_handle
         self._stale = True
+        # values computed from the previous function handle are outdated
+        self.notify_parents()
 
     @ValueNode.value.setter
     def value(self, value):
@@ -780,7 +784,12 @@ class Tuple(ValueNode):
     def __setitem__(self, index, item):
         if not isinstance(item, NodeBase):
             item = Parameter(item)
+        _old_item = self._children[index]
         self._children[index] = item
+        item.add_parent(self)
+        if _old_item is not item and _old_item not in self._children:
+            _old_item.remove_parent(self)
+        self.mark_for_update()
 
     @property
     def nodes(self):
